@@ -38,13 +38,11 @@ def intVal (z : Int) : Val := .conv ("int:".toList ++ intStr z)
 /-- the handler `make_filter('int', …)` builds: `tmp = re.compile(r'-?\d+').match(param)`;
 no match ⇒ `(None, 0, None)`; else `(int(tmp.group()), tmp.end(), None)` -/
 def intFilter (s : Str) : Option FilterRes :=
-  match s with
-  | '-' :: r =>
-    let ds := r.takeWhile isDecDigit
-    if ds.isEmpty then none else some ⟨intVal (-(digitsValue ds : Int)), ds.length + 1, none⟩
-  | _ =>
-    let ds := s.takeWhile isDecDigit
-    if ds.isEmpty then none else some ⟨intVal (digitsValue ds : Int), ds.length, none⟩
+  let neg := s.head? == some '-'
+  let ds := (if neg then s.drop 1 else s).takeWhile isDecDigit
+  if ds.isEmpty then none
+  else some ⟨intVal (if neg then -(digitsValue ds : Int) else (digitsValue ds : Int)),
+             ds.length + (if neg then 1 else 0), none⟩
 
 /-- filter name inside a handler identity `name(args)` -/
 def fidName (f : Fid) : Str := f.takeWhile (· != '(')
@@ -81,23 +79,26 @@ def fmtOut (fenv : FormatEnv) (f : Option Fid) (v : Val) : Except ErrName Val :=
       | none => (fenv g v).map .str
     else (fenv g v).map .str
 
-/-- `if f_in: assert f_in(prt)[1]`: the handler is run on the formatted value standing alone
-and must consume at least one character.  A value that is not a `str` makes `mask.match` raise. -/
-def sanity (env : FilterEnv) (f : Option Fid) (prt : Val) : Except ErrName Unit :=
+/-- the sanity check of `url`:
+`value, pos, _ = f_in(prt + nxt); assert value is not None and pos == len(prt)` where `nxt` is the
+literal text of the rule up to the next wildcard: the handler must accept the formatted value
+where it will stand and consume exactly the value (which may be empty).  A value that is not a
+`str` makes `prt + nxt` raise. -/
+def sanity (env : FilterEnv) (f : Option Fid) (prt : Val) (nxt : Str) : Except ErrName Unit :=
   match f with
   | none => pure ()
   | some g =>
     match prt with
     | .conv _ => throw "TypeError"
     | .str s =>
-      match env g s with
-      | some r => if r.n == 0 then throw "AssertionError" else pure ()
+      match env g (s ++ nxt) with
+      | some r => if r.n == s.length then pure () else throw "AssertionError"
       | none => throw "AssertionError"
 
 /-- format, then check: what one wildcard contributes to the URL -/
-def piece (env : FilterEnv) (fenv : FormatEnv) (f : Option Fid) (v : Val) : Except ErrName Val := do
+def piece (env : FilterEnv) (fenv : FormatEnv) (f : Option Fid) (nxt : Str) (v : Val) : Except ErrName Val := do
   let prt ← fmtOut fenv f v
-  sanity env f prt
+  sanity env f prt nxt
   pure prt
 
 /-! ## 3. `Route.url` -/
@@ -157,7 +158,8 @@ def urlMarker (env : FilterEnv) (fenv : FormatEnv) (a : UrlArgs) (st : UrlSt) : 
       | some v => pure (v, st)
       | none => throw "KeyError" : Except ErrName (Val × UrlSt))
   let prt ← fmtOut fenv f prt
-  sanity env f prt
+  -- nxt_end = pattern_out.find('\r', cidx); nxt = pattern_out[cidx:nxt_end] (to the end if none)
+  sanity env f prt ((a.patOut.drop st.cidx).takeWhile (· != marker))
   pure { st with ret := st.ret ++ [prt] }
 
 /-- `for c in pattern_out:` -/
@@ -223,13 +225,14 @@ def matchRule (env : FilterEnv) : List Sym → Str → Option (List Val)
     | some res => (matchRule env p ((d :: r).drop res.n)).map (res.val :: ·)
 
 /-- what `url` amounts to: the pieces of the URL in order, one per literal character and one
-formatted, sanity-checked value per wildcard (values consumed left to right) -/
+formatted value per wildcard (values consumed left to right), sanity-checked in front of the
+literal run that follows it -/
 def urlSpec (env : FilterEnv) (fenv : FormatEnv) : List Sym → List Val → Except ErrName (List Val)
   | [], _ => pure []
   | .lit c :: p, vs => (Val.str [c] :: ·) <$> urlSpec env fenv p vs
   | .tok _ :: _, [] => throw "IndexError"
   | .tok f :: p, v :: vs => do
-    let prt ← piece env fenv f v
+    let prt ← piece env fenv f (litRun p) v
     let rest ← urlSpec env fenv p vs
     pure (prt :: rest)
 
